@@ -134,6 +134,7 @@ func harnessNames(p *ssa.Package) []string {
 
 type options struct {
 	repo, verif string
+	out         string // where evidence and replay files go (default: verif)
 	workers     int
 	seed        int64
 	native      bool
@@ -147,6 +148,13 @@ type Summary struct {
 	Known       []Failure
 	Unconfirmed []Failure
 	Problems    []string
+}
+
+func (o *options) outDir() string {
+	if o.out != "" {
+		return o.out
+	}
+	return o.verif
 }
 
 func writeReplay(verif string, c ReplayCase) string {
@@ -253,7 +261,7 @@ func runChecks(l *Loaded, specs []*RunSpec, known []KnownFinding, opt options) *
 					if reproduced(cases[i].Expect, outs[i]) {
 						if !confirmed[sig(f)] {
 							confirmed[sig(f)] = true
-							f.Replay = writeReplay(opt.verif, cases[i])
+							f.Replay = writeReplay(opt.outDir(), cases[i])
 							sum.Violations = append(sum.Violations, *f)
 						}
 					}
@@ -326,6 +334,7 @@ func main() {
 func commonFlags(fs *flag.FlagSet, opt *options) {
 	fs.StringVar(&opt.repo, "repo", "/repo", "repository under test")
 	fs.StringVar(&opt.verif, "verif", "/verif", "verification directory")
+	fs.StringVar(&opt.out, "out", "", "directory for evidence/ and replays/ (default: the verification directory)")
 	fs.IntVar(&opt.workers, "workers", 16, "parallel workers (one solver process each)")
 	fs.BoolVar(&opt.native, "native", true, "replay counterexamples and sampled paths against the native build")
 	fs.IntVar(&opt.nsamples, "samples", 24, "passing paths per harness replayed natively (translator validation)")
@@ -464,10 +473,11 @@ func cmdCheck(args []string) int {
 	}
 	var specs []*RunSpec
 	dirs := map[string]bool{}
+	scope := propertyScope(filepath.Join(opt.verif, "properties.jsonl"), *prop)
 	for _, s := range all {
 		has := false
 		for _, p := range s.Props {
-			if p == *prop {
+			if p == *prop || (p == "*" && scope[s.Pkg]) {
 				has = true
 			}
 		}
@@ -503,6 +513,45 @@ func cmdCheck(args []string) int {
 	fmt.Printf("gosym check property=%s tier=%s: %d harness runs, %d packages loaded from %s in %.1fs\n", *prop, *tier, len(specs), len(dl), opt.repo, l.loadS)
 	sum := runChecks(l, specs, known, opt)
 	return report(sum, *prop, *tier, opt, l, t0, true)
+}
+
+// uses: which packages a container package is built on (their invariants are part of its induction hypothesis).
+var uses = map[string][]string{
+	"stacks/arraystack": {"lists/arraylist"}, "queues/arrayqueue": {"lists/arraylist"}, "trees/binaryheap": {"lists/arraylist"},
+	"queues/priorityqueue": {"trees/binaryheap", "lists/arraylist"}, "stacks/linkedliststack": {"lists/singlylinkedlist"},
+	"queues/linkedlistqueue": {"lists/singlylinkedlist"}, "sets/linkedhashset": {"lists/doublylinkedlist"},
+	"maps/linkedhashmap": {"lists/doublylinkedlist"}, "sets/treeset": {"trees/redblacktree"}, "maps/treemap": {"trees/redblacktree"},
+	"maps/treebidimap": {"trees/redblacktree"}, "maps/hashbidimap": {"maps/hashmap"},
+}
+
+// propertyScope: the package directories a property is anchored in (properties.jsonl anchors.files), closed under uses.
+// Registry lines marked "*" (mutator steps: they re-establish the representation invariant every other check starts
+// from) are run for every property whose scope contains their package; only invariant labels and panics count there.
+func propertyScope(path, prop string) map[string]bool {
+	scope := map[string]bool{}
+	b, err := os.ReadFile(path)
+	if err != nil {
+		return scope
+	}
+	for _, line := range strings.Split(string(b), "\n") {
+		var p struct {
+			ID      string `json:"id"`
+			Anchors struct {
+				Files []string `json:"files"`
+			} `json:"anchors"`
+		}
+		if json.Unmarshal([]byte(line), &p) != nil || p.ID != prop {
+			continue
+		}
+		for _, f := range p.Anchors.Files {
+			d := filepath.Dir(f)
+			scope[d] = true
+			for _, u := range uses[d] {
+				scope[u] = true
+			}
+		}
+	}
+	return scope
 }
 
 func cmdReplay(args []string) int {
